@@ -427,8 +427,12 @@ pub fn check_log(h: &Hist, info: &SchedInfo) -> Result<(bool, Vec<&'static str>)
         }
         if complete || taken.len() > sent.len() {
             // sequential reports arrive in order; reports issued concurrently arrive in some order, each exactly once
-            let mut a: Vec<u32> = taken.iter().map(|x| x.1.to_bits()).collect();
-            let mut b: Vec<u32> = sent.iter().map(|x| x.1.to_bits()).collect();
+            // values inside the documented 0..1 fraction must arrive unchanged; for a value outside it only delivery is
+            // required (an implementation may clamp it), and when a NaN was reported only the number of deliveries
+            let norm = |v: f32| if v.is_nan() { 0 } else { v.clamp(0.0, 1.0).to_bits() };
+            let any_nan = sent.iter().any(|x| x.1.is_nan());
+            let mut a: Vec<u32> = taken.iter().map(|x| if any_nan { 0 } else { norm(x.1) }).collect();
+            let mut b: Vec<u32> = sent.iter().map(|x| if any_nan { 0 } else { norm(x.1) }).collect();
             if concurrent {
                 a.sort();
                 b.sort();
@@ -479,9 +483,25 @@ fn case_machine_eager(t: &mut Tape, ctx: &CaseCtx) -> CaseResult {
         script.reboot_allowed = vec![(false, false), (false, false), (true, true)];
     }
     let lives = [LifePlan { oneshot: t.chance(1, 6), checks: 1 + t.choose(3), crash_at: None, wall_at_start: None }, LifePlan::new(false, 1, None)];
-    let h = run_history(script, &lives[..1 + t.choose(2)]);
+    let n_lives = 1 + t.choose(2);
+    // (seed C13r) one eager case in four replaces one progress value by one outside the documented 0..1 fraction (float
+    // overshoot, > 1, negative, infinite, NaN): receive_progress takes any f32 and the statement says *every* reported
+    // value is delivered. Drawn last, so tapes recorded before this draw existed still decode to the same case.
+    let mut widened = false;
+    if t.choose(4) != 0 && !script.installs.is_empty() {
+        let k = t.choose(script.installs.len());
+        if !script.installs[k].progress.is_empty() {
+            let j = t.choose(script.installs[k].progress.len());
+            script.installs[k].progress[j] = [1.000_000_1f32, 1.5, -0.25, f32::INFINITY, f32::NAN, 1.0e30, -1.0e-7][t.choose(7)];
+            widened = true;
+        }
+    }
+    let h = run_history(script, &lives[..n_lives]);
     let (nontrivial, mut classes) = check_log(&h, &SchedInfo::default())?;
     classes.push("state_machine_eager");
+    if widened && h.log.iter().any(|o| matches!(o, Op::Progress { value, .. } if !(0.0..=1.0).contains(value))) {
+        classes.push("progress_value_outside_unit_interval_reported");
+    }
     Ok(CaseReport { key: hash_of(&format!("{:?}", h.script)), nontrivial, classes, sample: ctx.want_sample.then(|| json!({"events_taken": h.log.iter().filter(|o| matches!(o, Op::Took(_))).count()})), ambiguous: false })
 }
 
